@@ -76,6 +76,31 @@ Definition enc_cmd (nt : net) (c : cmd) : tree :=
   | CEnd => T [L 4] | CFail => T [L 5] | CWait => T [L 6]
   end.
 
+(* the quantifier shared by the E1 properties: ids of nodes and handlers pairwise distinct (counters, gates and
+   trace events are keyed by id), workers >= 1, buffersize >= 1.  Inputs outside it (they can only come from the
+   shrinker) are answered with tag 4 and nothing is compared or judged on them. *)
+Fixpoint cfg_ids (fuel : nat) (c : cfg) : list Z :=
+  match fuel with
+  | O => []
+  | S f => match c with
+           | Cfg id _ _ _ _ _ kids h =>
+               id :: (match h with Some x => [h_id x] | None => [] end) ++ flat_map (cfg_ids f) kids
+           end
+  end.
+Fixpoint cfg_sizes_ok (fuel : nat) (c : cfg) : bool :=
+  match fuel with
+  | O => false
+  | S f => match c with
+           | Cfg _ _ w b _ _ kids h =>
+               (0 <? w)%nat && (0 <? b)%nat
+               && (match h with Some x => (0 <? h_workers x)%nat && (0 <? h_buf x)%nat | None => true end)
+               && forallb (cfg_sizes_ok f) kids
+           end
+  end.
+Definition in_domain_e1 (cfgs : list cfg) : bool :=
+  nodupb (flat_map (cfg_ids 64) cfgs) && forallb (cfg_sizes_ok 64) cfgs.
+Definition out_of_domain : tree := T [ L 1; T []; T []; T [L 4]; T [] ].
+
 Record lock_input := { li_T : nat; li_cfgs : list cfg; li_intents : list intent }.
 Definition dec_lock (t : tree) : option lock_input :=
   match t with
@@ -211,6 +236,7 @@ Definition main_blocked (s : state) : bool := match mn s with MDeliver _ _ => tr
 Definition judge_lock (ti tobs : tree) : tree :=
   match dec_lock ti, tobs with
   | Some i, T [netdump; snap0; T snaps; waits] =>
+      if negb (in_domain_e1 (li_cfgs i)) then out_of_domain else
       match getZs waits with
       | None => malformed
       | Some waits =>
@@ -236,6 +262,7 @@ Definition judge_free (ti tobs : tree) : tree :=
       match mapM (dec_cfg 64) cfgs with
       | None => malformed
       | Some cfgs =>
+          if negb (in_domain_e1 cfgs) then out_of_domain else
           let nt := flatten cfgs in
           match mapM (dec_tev nt) trace, mapM dec_counters ctrs with
           | Some tr, Some ks =>
